@@ -81,7 +81,15 @@ def execute(case, conf):
     return b, r, (solver.calls if solver is not None else 0)
 
 
-def judge(case, seq, stems, graph, fc, opt, beh_effective, r, tag, out, b):
+def judge(case, seq, stems, graph, fc, opt, beh_effective, r, tag, out, b, suffix=""):
+    n0 = len(out)
+    res = _judge(case, seq, stems, graph, fc, opt, beh_effective, r, tag, out, b)
+    for v in out[n0:]:
+        v["signature"] += suffix
+    return res
+
+
+def _judge(case, seq, stems, graph, fc, opt, beh_effective, r, tag, out, b):
     if r[0] == "exc":
         out.append(viol("raises:%s:%s" % (beh_effective, r[1]), "%s: conversion raised %s" % (tag, r[2]), r[2], "a dot-bracket"))
         return "exc"
@@ -161,6 +169,11 @@ def run_case(case):
                     r = observe(b.convert_to_dot_bracket, solver)
                     judge(case, seq, stems, graph, fc, opt, beh, r, "script %s step %d" % ("/".join(script), pos), out, b)
                     transitions += 1
+                # afterwards the object is asked for 'the' notation with the real back-end of this image: an explicit conversion that fell back (or did
+                # not) must not have left anything behind that changes this answer - it is the optimal notation, as on a fresh object
+                r = observe(lambda: b.dot_bracket)
+                judge(case, seq, stems, graph, fc, opt, "ok", r, "dot_bracket after script %s" % "/".join(script), out, b, suffix=":after-explicit-conversions")
+                transitions += 1
                 states += 1
                 traces += 1
     # de-duplicate violations by signature
